@@ -20,3 +20,122 @@ Proof.
   exists outs. split; assumption.
 Qed.
 Print Assumptions C01_binary_payload_path.
+
+(* ---- the codec layer L1 (Model/Base64.v, Model/Wire.v) ---- *)
+From Trzsz Require Import Model.Base64 Model.Wire Proofs.Base64 Proofs.Wire.
+
+(* base64 (encoding/base64 StdEncoding as transcribed): decode after encode is the identity *)
+Theorem C01_b64_roundtrip : forall d, bytes_ok d = true -> b64_decode (b64_encode d) = Some d.
+Proof. exact roundtrip. Qed.
+Print Assumptions C01_b64_roundtrip.
+
+Theorem C01_b64_length : forall d, length (b64_encode d) = (4 * ((length d + 2) / 3))%nat.
+Proof. exact encode_length. Qed.
+Print Assumptions C01_b64_length.
+
+(* the streaming encoder (partial 3-byte groups buffered between Writes, Close pads):
+   its total output is the encoding of the concatenated input, for every chunking *)
+Theorem C01_b64_writer_concat : forall chunks, b64_writer_all chunks = b64_encode (concat chunks).
+Proof. exact writer_concat. Qed.
+Print Assumptions C01_b64_writer_concat.
+
+(* CR / LF anywhere in the stream are skipped *)
+Theorem C01_b64_decode_skips_newlines : forall d s, bytes_ok d = true -> b64_strip s = b64_encode d -> b64_decode s = Some d.
+Proof. exact roundtrip_with_newlines. Qed.
+Print Assumptions C01_b64_decode_skips_newlines.
+
+(* base64-mode payload path, analogous to C01_binary_payload_path: the sender encodes
+   chunk by chunk through the streaming encoder, the encoded stream is cut into frames
+   anywhere (not only at multiples of 4), the receiver decodes the concatenation *)
+Theorem C01_base64_payload_path : forall chunks frames,
+  bytes_ok (concat chunks) = true -> concat frames = b64_writer_all chunks ->
+  b64_decode (concat frames) = Some (concat chunks).
+Proof. intros chunks frames B E. rewrite E, writer_concat. apply roundtrip, B. Qed.
+Print Assumptions C01_base64_payload_path.
+
+(* cutting a stream into frames of arbitrary sizes (the adaptive buffer size is an arbitrary
+   list) loses nothing, makes no empty frame (the empty frame is the finish flag), and
+   pipelineSendData's further splitting keeps both *)
+Theorem C01_frames_concat : forall sizes dflt s, concat (wire_frames sizes dflt s) = s /\ all_nonempty (wire_frames sizes dflt s) = true.
+Proof. intros. split; [apply frames_concat|apply frames_nonempty]. Qed.
+Print Assumptions C01_frames_concat.
+
+Theorem C01_resplit_concat : forall fs sizes dflt,
+  concat (map snd (wire_resplit fs sizes dflt)) = concat fs /\
+  (all_nonempty fs = true -> all_nonempty (map snd (wire_resplit fs sizes dflt)) = true).
+Proof. intros. split; [apply resplit_concat|apply resplit_nonempty]. Qed.
+Print Assumptions C01_resplit_concat.
+
+(* L1: all four stacks ([zstd ->] escape | base64 -> frames).  zstd is external: any pair
+   of functions with the streaming round trip whose compressor outputs bytes.  For every
+   table that is absent or well-formed, every file content, every chunking of the file,
+   every sequence of frame sizes, every sequence of read-buffer sizes on the receiving
+   side: decoding the frames gives back the file. *)
+Theorem C01_L1_roundtrip : forall zcomp zdecomp,
+  (forall cs, zdecomp (concat (zcomp cs)) = Some (concat cs)) ->
+  (forall cs, bytes_ok (concat (zcomp cs)) = true) ->
+  forall binary compress t chunks sizes dflt rsizes rdflt,
+  (t = [] \/ wf t = true) -> bytes_ok (concat chunks) = true ->
+  Forall (fun s => 1 <= s)%nat rsizes -> (1 <= rdflt)%nat ->
+  wire_decode zdecomp binary compress t
+     (wire_frames sizes dflt (wire_encode zcomp binary compress t chunks)) rsizes rdflt = Some (concat chunks).
+Proof. exact L1_roundtrip. Qed.
+Print Assumptions C01_L1_roundtrip.
+
+(* the same for ANY cutting of the encoded stream into non-empty frames (pipelineSendData's
+   re-splitting, see C01_resplit_concat, is one) *)
+Theorem C01_L1_roundtrip_frames : forall zcomp zdecomp,
+  (forall cs, zdecomp (concat (zcomp cs)) = Some (concat cs)) ->
+  (forall cs, bytes_ok (concat (zcomp cs)) = true) ->
+  forall binary compress t chunks fs rsizes rdflt,
+  (t = [] \/ wf t = true) -> bytes_ok (concat chunks) = true ->
+  all_nonempty fs = true -> concat fs = wire_encode zcomp binary compress t chunks ->
+  Forall (fun s => 1 <= s)%nat rsizes -> (1 <= rdflt)%nat ->
+  wire_decode zdecomp binary compress t fs rsizes rdflt = Some (concat chunks).
+Proof. exact L1_roundtrip_frames. Qed.
+Print Assumptions C01_L1_roundtrip_frames.
+
+(* the receiver's view: the DATA lines the sender writes for non-empty frames followed by the
+   finish flag, read back line by line (a line ends at the first LF; binary mode: the line
+   carries the length and the frame is the next n bytes), give exactly the frames and leave
+   the rest of the wire unread.  In base64 mode the frames must consist of base64 characters
+   (they do: frames_ok_send).  Reassembly of lines from arbitrary reads is C03. *)
+Theorem C01_L1_frames_parse : forall binary fs rest fuel,
+  forallb (frame_ok binary) fs = true -> (length fs < fuel)%nat ->
+  wire_recv fuel binary (concat (map (wire_data_frame binary [LF]) (fs ++ [[]])) ++ rest) = Some (fs, rest).
+Proof. exact L1_frames_parse. Qed.
+Print Assumptions C01_L1_frames_parse.
+
+Theorem C01_L1_frames_readable : forall zcomp binary compress t chunks fs,
+  all_nonempty fs = true -> concat fs = wire_encode zcomp binary compress t chunks ->
+  forallb (frame_ok binary) fs = true.
+Proof. exact frames_ok_send. Qed.
+Print Assumptions C01_L1_frames_readable.
+
+(* protocol 1: every chunk coded on its own (base64(zlib(chunk)) or escaped); zlib external *)
+Theorem C01_v1_chunk_roundtrip : forall zl unzl,
+  (forall d, unzl (zl d) = Some d) -> (forall d, bytes_ok (zl d) = true) ->
+  forall binary t chunk, (t = [] \/ wf t = true) -> bytes_ok chunk = true ->
+  wire_v1_decode unzl binary t (if binary then escape t chunk else wire_encode_bytes zl chunk) = Some chunk.
+Proof. exact v1_roundtrip. Qed.
+Print Assumptions C01_v1_chunk_roundtrip.
+
+(* decimal numbers on the wire read back as themselves *)
+Theorem C01_decimal_roundtrip : forall n, wire_undec (wire_dec n) = Some n.
+Proof. exact undec_dec. Qed.
+Print Assumptions C01_decimal_roundtrip.
+
+(* non-vacuity: the hypotheses are met by the identity "compressor" and the escape-all table *)
+Example C01_L1_nonvacuous :
+  let id1 := fun cs : list (list byte) => cs in
+  wf (builtin_table true) = true /\
+  wire_frames [3; 1]%nat 2 (wire_encode id1 true false (builtin_table true) [[126; 1]; [238; 27; 0]]) =
+    [[238; 49; 1]; [238]; [238; 238]; [71; 0]] /\
+  wire_decode (fun x => Some x) true false (builtin_table true) [[238; 49; 1]; [238]; [238; 238]; [71; 0]] [1%nat] 2 = Some [126; 1; 238; 27; 0] /\
+  wire_frames [5%nat] 4 (wire_encode id1 false false [] [[77]; [97; 110]]) = [[84; 87; 70; 117]].
+Proof. vm_compute. auto. Qed.
+
+(* a base64 stream whose length (CR/LF not counted) is not a multiple of 4 is rejected, not guessed *)
+Theorem C01_b64_rejects_bad_length : forall s, (length (b64_strip s) mod 4 <> 0)%nat -> b64_decode s = None.
+Proof. exact decode_rejects_bad_length. Qed.
+Print Assumptions C01_b64_rejects_bad_length.
